@@ -825,6 +825,50 @@ func ruleC05R3(r *Run) {
 				}
 			}
 		}
+		// … and inside the walk a frame is left out only as a leading runtime / blacklisted frame: every cycle of the
+		// loop that writes nothing has taken a branch on the blacklist lookup or the runtime prefix. A frame dropped for
+		// any other reason (equal to the previous one, of some package, beyond a count) merges failure sites that differ
+		// only in such frames — recursion depths, for instance.
+		for _, l := range loopsOf(pe) {
+			writes := map[ssa.Instruction]bool{}
+			for _, cs := range p.callsTo(pe, "fmt.Fprintf", "fmt.Fprint", "fmt.Fprintln", "(*strings.Builder).WriteString", "(*strings.Builder).WriteByte", "(*strings.Builder).WriteRune") {
+				if l.Body[cs.Instr.Block()] {
+					writes[cs.Instr] = true
+				}
+			}
+			if len(writes) == 0 {
+				continue // a loop that only skips (a two-loop form) is judged by its exits
+			}
+			bad := ""
+			complete := p.pathsFrom(l.Header, 2000, func(cp *cfgPath, back bool) {
+				if bad != "" || !back || cp.infeasible {
+					return
+				}
+				wrote, special := false, false
+				for i, b := range cp.blocks[:len(cp.blocks)-1] {
+					for _, in := range b.Instrs {
+						if writes[in] {
+							wrote = true
+						}
+					}
+					if iff, ok := b.Instrs[len(b.Instrs)-1].(*ssa.If); ok && i+1 < len(cp.blocks) && b.Succs[0] != b.Succs[1] {
+						// (a condition that is a phi — `special := a || b` — stands for the operand of the edge taken)
+						rl := p.relOf(guard{Cond: cp.onPath(iff.Cond), Pol: b.Succs[0] == cp.blocks[i+1]})
+						if rl.Y == "true" && rl.Op == "==" && (strings.Contains(rl.X, "tracebackBlacklist[") || strings.Contains(rl.X, "G:tracebackBlacklist") || (strings.Contains(rl.X, "strings.HasPrefix(") && strings.Contains(rl.X, ".Function") && (strings.Contains(rl.X, "runtimePrefix") || strings.Contains(rl.X, `"runtime.`)))) {
+							special = true
+						}
+					}
+				}
+				if !wrote && !special {
+					bad = cp.String()
+				}
+			})
+			if !complete {
+				r.Undecided("panicToError#every-frame-written", l.Header.Instrs[0].Pos(), "too many paths in the frame loop")
+			} else {
+				r.Check("panicToError#every-frame-written", l.Header.Instrs[0].Pos(), bad == "", "a cycle of the frame walk that writes nothing has skipped a runtime or blacklisted frame", "the frame walk of panicToError can skip a frame that is neither a runtime nor a blacklisted one (cycle "+bad+" writes nothing): failure sites that differ only in the skipped frames — e.g. recursion depths — get equal tracebacks, and minimisation can move from the failure that was found to another one")
+			}
+		}
 		if c, ok := p.Types.Scope().Lookup("tracebackLen").(*types.Const); ok {
 			n, _ := constantInt(c)
 			r.Check("tracebackLen", c.Pos(), n >= 32, fmt.Sprintf("up to %d frames are captured", n), fmt.Sprintf("only %d frames are captured (tracebackLen): failure sites deeper than that are indistinguishable", n))
